@@ -124,3 +124,26 @@ CHECKS['C19'] = dict(
     technique='exhaustive enumeration of API histories (break subsets x justify parameter product) on the real code, invariant after every step',
     assumptions=['breaks are placed at cluster boundaries only'],
 )
+
+CHECKS['C15'] = dict(
+    level='exploration',
+    steps=[dict(mode='asan', bin='c15_scale')],
+    rule='(every shipped font x first 60 (quick) / all (thorough) corpus lines and words) + (S-full, S-full RTL, S-full v3, S-min x ALL strings of length 0..3 (thorough 0..4) over {a,b,c,d,e,space,acute,grave}) x dir {0,1,3} x ppm {0.5,1,7.3,12,48.5,upem,4096}: '
+         'structural dump identical to the font=NULL run; origin x/y, gr_slot_advance_X/Y, segment advance within 1e-4 relative of design value x ppm/upem. distinct = distinct structural dumps',
+    level_text='Bounded exhaustive product of fonts x texts x directions x ppm values on the real code with a differential oracle (design-unit run) and a linear-scaling oracle.',
+    level_note='Trusted: the oracle tolerance 1e-4 (measured worst case < 1e-6). ppm values are a 7-point set, not all of (0,4096].',
+    technique='exhaustive bounded configuration/input product on the real code, differential + metamorphic oracle',
+    assumptions=[],
+)
+
+CHECKS['C10'] = dict(
+    level='exploration',
+    steps=[dict(mode='asan', bin='c10_options')],
+    rule='16 configurations (faceOptions 0..7 x {table callbacks, gr_make_file_face}) per font; fonts: all shipped + S-full variants (compressed, no sub-boxes, no glyf/loca, more attribute glyphs than outlines, Silf v3/v4, RTL), S-min, 40-feature font; '
+         'face dump (every gr_face_*/gr_fref_* query, labels, is_char_supported probes) and every segment dump (bitwise, positions included) for corpus lines/words (60 quick / all thorough) resp. all strings <=2 (thorough <=3) over 9 characters x dir {0,1,3} x {default, first language} '
+         'must equal configuration (0, callbacks); with preloadAll no get_table call after load. distinct = distinct reference dumps',
+    level_text='Exhaustive configuration product (all option bits x both table sources) crossed with bounded text sets on the real code, differential oracle against the default configuration.',
+    level_note='Trusted: dump completeness (src/common/dump.hpp). Text sets are bounded.',
+    technique='exhaustive configuration product x bounded inputs on the real code, differential oracle',
+    assumptions=[],
+)
